@@ -131,11 +131,7 @@ func (p *Proxy) SetAttr(name string, value Object) error {
 		}
 
 		if field.CanSet() {
-			if result == nil {
-				field.SetZero()
-			} else {
-				field.Set(reflect.ValueOf(result))
-			}
+			setField(field, result)
 			return nil
 		} else {
 			return errz.TypeErrorf("type error: cannot set field %s", name)
